@@ -465,3 +465,103 @@ def func_is_classmethod(fn):
         if isinstance(d, ast.Name) and d.id in ("classmethod",):
             return True
     return False
+
+
+def inline_self_aliases(fn):
+    """copy of function `fn` in which every local that is bound exactly once, by `x = self.attr`, and never rebound, is
+    replaced by `self.attr` (the binding itself is dropped): `buf = self._read_buffer; buf.extend(d)` is analysed as
+    `self._read_buffer.extend(d)`.  Only sound for attributes holding mutable objects that the function does not rebind
+    before the last use of the alias - callers check that (`self.attr = ...` anywhere in fn disables the alias)."""
+    import copy
+    binds = {}
+    stores = {}
+    for n in ast.walk(fn):
+        if isinstance(n, (ast.Assign, ast.AugAssign, ast.AnnAssign, ast.For, ast.With, ast.comprehension)):
+            tgts = []
+            if isinstance(n, ast.Assign):
+                tgts = n.targets
+            elif isinstance(n, (ast.AugAssign, ast.AnnAssign)):
+                tgts = [n.target]
+            elif isinstance(n, (ast.For, ast.comprehension)):
+                tgts = [n.target]
+            elif isinstance(n, ast.With):
+                tgts = [i.optional_vars for i in n.items if i.optional_vars is not None]
+            for t in tgts:
+                for x in ast.walk(t):
+                    if isinstance(x, ast.Name):
+                        stores[x.id] = stores.get(x.id, 0) + 1
+            if isinstance(n, ast.Assign) and len(n.targets) == 1 and isinstance(n.targets[0], ast.Name) and isinstance(n.value, ast.Attribute) \
+                    and isinstance(n.value.value, ast.Name) and n.value.value.id == "self":
+                binds[n.targets[0].id] = n
+    rebound_attrs = {t.attr for n in ast.walk(fn) if isinstance(n, (ast.Assign, ast.AugAssign)) for t in (n.targets if isinstance(n, ast.Assign) else [n.target])
+                     if isinstance(t, ast.Attribute) and isinstance(t.value, ast.Name) and t.value.id == "self"}
+    params = {a.arg for a in fn.args.args + fn.args.kwonlyargs}
+    alias = {name: st.value.attr for name, st in binds.items() if stores.get(name) == 1 and name not in params and st.value.attr not in rebound_attrs}
+    if not alias:
+        return fn, {}
+    new = copy.deepcopy(fn)
+    drop = {(st.lineno, st.col_offset) for name, st in binds.items() if name in alias}
+
+    class T(ast.NodeTransformer):
+        def visit_Name(self, node):
+            if node.id in alias and isinstance(node.ctx, (ast.Load, ast.Del)):
+                return ast.copy_location(ast.Attribute(value=ast.copy_location(ast.Name(id="self", ctx=ast.Load()), node), attr=alias[node.id], ctx=node.ctx), node)
+            return node
+
+        def visit_Assign(self, node):
+            if (node.lineno, node.col_offset) in drop and len(node.targets) == 1 and isinstance(node.targets[0], ast.Name) and node.targets[0].id in alias:
+                return ast.copy_location(ast.Pass(), node)
+            return self.generic_visit(node)
+    new = T().visit(new)
+    ast.fix_missing_locations(new)
+    return new, alias
+
+
+def inline_arith_temps(fn, keep=()):
+    """copy of `fn` in which locals bound exactly once to a purely arithmetic expression over names and constants
+    (`end = offset + 3 + size`) are replaced by that expression at their uses, provided no operand is rebound between the
+    binding and the use other than by the using statement itself.  Lets linear-arithmetic rules see through temporaries."""
+    import copy
+    counts, defs = {}, {}
+    for n in ast.walk(fn):
+        if isinstance(n, (ast.Assign, ast.AugAssign)):
+            for t in (n.targets if isinstance(n, ast.Assign) else [n.target]):
+                for x in ast.walk(t):
+                    if isinstance(x, ast.Name):
+                        counts[x.id] = counts.get(x.id, 0) + 1
+            if isinstance(n, ast.Assign) and len(n.targets) == 1 and isinstance(n.targets[0], ast.Name):
+                ok = all(isinstance(x, (ast.BinOp, ast.Name, ast.Constant, ast.Add, ast.Sub, ast.Mult, ast.Load)) for x in ast.walk(n.value)) and isinstance(n.value, ast.BinOp)
+                if ok:
+                    defs[n.targets[0].id] = n
+        elif isinstance(n, (ast.For, ast.comprehension)):
+            for x in ast.walk(n.target):
+                if isinstance(x, ast.Name):
+                    counts[x.id] = counts.get(x.id, 0) + 2
+    temps = {name: st for name, st in defs.items() if counts.get(name) == 1 and name not in keep}
+    # hazard check: an operand rebound between the definition and a use (by another statement)
+    for name, st in list(temps.items()):
+        ops = {x.id for x in ast.walk(st.value) if isinstance(x, ast.Name)}
+        uses = [x for x in ast.walk(fn) if isinstance(x, ast.Name) and x.id == name and isinstance(x.ctx, ast.Load)]
+        last = max([u.lineno for u in uses], default=st.lineno)
+        for n in ast.walk(fn):
+            if isinstance(n, (ast.Assign, ast.AugAssign)) and st.lineno < n.lineno < last:
+                for t in (n.targets if isinstance(n, ast.Assign) else [n.target]):
+                    if isinstance(t, ast.Name) and t.id in ops:
+                        temps.pop(name, None)
+    if not temps:
+        return fn
+    new = copy.deepcopy(fn)
+
+    class T(ast.NodeTransformer):
+        def visit_Name(self, node):
+            if node.id in temps and isinstance(node.ctx, ast.Load):
+                return ast.copy_location(copy.deepcopy(temps[node.id].value), node)
+            return node
+
+        def visit_Assign(self, node):
+            if len(node.targets) == 1 and isinstance(node.targets[0], ast.Name) and node.targets[0].id in temps and node.lineno == temps[node.targets[0].id].lineno:
+                return ast.copy_location(ast.Pass(), node)
+            return self.generic_visit(node)
+    new = T().visit(new)
+    ast.fix_missing_locations(new)
+    return new
